@@ -14,6 +14,7 @@ import Krp.Props.C08
 import Krp.Props.C04
 import Krp.Props.C12
 import Krp.Lemmas.Calm
+import Krp.Lemmas.Cw20
 namespace Krp
 open HubSt
 
@@ -339,5 +340,147 @@ example (u : Addr) (f : List (Denom × Nat)) (a : Nat) (hook : Hook) (rc : Optio
     Calm (.wasm u bseiA (.tok (.send hubA a hook)) f) = true ∧ Calm (.wasm u stseiA (.tok (.send hubA a hook)) f) = true ∧
     Calm (.wasm u bseiA (.tok (.transfer 6 a)) f) = true ∧ Calm (.wasm u rewardA (.reward (.claim rc)) f) = true :=
   ⟨rfl, rfl, rfl, rfl, rfl, rfl, rfl, rfl⟩
+
+/-! ### Liveness, as a whole transaction (stSei unbond inside an epoch)
+
+  The hub-side lemma above composed with the token side through the message executor, for the path
+  that needs no invariant about delegations: an stSei holder unbonds while the epoch period has not
+  yet passed (the request is recorded, the tokens burnt, the slashing check refreshed). -/
+
+theorem mulDec_le_self (a r : Nat) (h : r ≤ D) : mulDec a r ≤ a := by
+  unfold mulDec
+  apply Nat.div_le_of_le_mul
+  rw [Nat.mul_comm D]
+  exact Nat.mul_le_mul_left _ h
+
+theorem fromRatio_le_one (x y : Nat) (h : x ≤ y) : fromRatio x y ≤ D := by
+  unfold fromRatio
+  by_cases hy : y = 0
+  · subst hy; simp
+  · apply Nat.div_le_of_le_mul
+    exact Nat.mul_le_mul_right _ h
+
+/-- the slashing check cannot fail once both token contracts answer the supply query -/
+theorem actualState_live (h : HubSt) (e : HubEnv) (bs ss : Nat)
+    (hb : h.bSupplyQ e = .ok bs) (hs : h.sSupplyQ e = .ok ss) : ∃ st, h.actualState e = .ok st := by
+  unfold actualState
+  split
+  · exact ⟨_, rfl⟩
+  · split
+    · exact ⟨_, rfl⟩
+    · simp only [hb, hs, bind, Except.bind, pure, Except.pure, throw, throwThe, MonadExceptOf.throw]
+      split
+      · have : ¬ (e.delegations.map (·.2)).sum < mulDec (e.delegations.map (·.2)).sum (fromRatio h.bBond (h.bBond + h.sBond)) := by
+          have := mulDec_le_self (e.delegations.map (·.2)).sum _ (fromRatio_le_one h.bBond (h.bBond + h.sBond) (by omega))
+          omega
+        rw [if_neg this]
+        exact ⟨_, rfl⟩
+      · exact ⟨_, rfl⟩
+
+theorem C09_stsei_unbond_tx_succeeds (s : Sys) (u : Addr) (amt : Nat)
+    (hp : s.hub.isPaused = false) (hbt : s.hub.bsei = some bseiA) (hst : s.hub.stsei = some stseiA)
+    (hth : s.stsei.hub = hubA) (wf : s.stsei.WF) (hpos : 0 < amt) (hbal : amt ≤ s.stsei.bal u)
+    (ht1 : s.hub.lastUnbondedTime ≤ s.chain.time)
+    (ht2 : ¬ s.chain.time - s.hub.lastUnbondedTime > s.hub.epoch) :
+    ∃ s', s.exec (.wasm u stseiA (.tok (.send hubA amt .unbond)) []) = (s', .ok ()) ∧
+      s'.hub.waitS u s.hub.batchId = s.hub.waitS u s.hub.batchId + amt ∧
+      s'.hub.reqS = s.hub.reqS + amt ∧ s'.stsei.supply + amt = s.stsei.supply := by
+  -- 1. the token moves the tokens to the hub and notifies it
+  obtain ⟨t1, ht1'⟩ : ∃ t, s.stsei.transfer u hubA amt = .ok t := by
+    unfold Token.transfer Token.move
+    rw [if_neg (by omega), if_neg (by omega)]
+    exact ⟨_, rfl⟩
+  have st1 := Token.transfer_step s.stsei t1 wf u hubA amt ht1'
+  have hub1 : t1.hub = hubA := by rw [st1.1.hub]; exact hth
+  have sup1 : t1.supply = s.stsei.supply := by have := st1.1.supply; omega
+  have balh : amt ≤ t1.bal hubA := by
+    unfold Token.transfer Token.move at ht1'
+    rw [if_neg (by omega), if_neg (by omega)] at ht1'
+    injection ht1' with ht1'; subst ht1'
+    simp [Token.setBal, upd]
+  obtain ⟨s1, hs1⟩ : ∃ x : Sys, x = { s with stsei := t1 } := ⟨_, rfl⟩
+  have H1 : s.handle (.wasm u stseiA (.tok (.send hubA amt .unbond)) []) =
+      .ok (s1, [Msg.wasm stseiA hubA (.hub (.receive u amt .unbond)) []]) := by
+    simp only [Sys.handle, Sys.moveFunds, bind, Except.bind, pure, Except.pure]
+    rw [if_neg (by decide), if_neg (by decide), if_pos trivial]
+    simp only [stseiExec, bind, Except.bind, pure, Except.pure, ht1', receiveMsg, if_true, hs1]
+  -- 2. the hub records the request
+  have hb1 : s1.hub.bSupplyQ s1.hubEnv = .ok s1.bsei.supply := by
+    rw [hs1]; simp only [HubSt.bSupplyQ, hbt]; rfl
+  have hs1q : s1.hub.sSupplyQ s1.hubEnv = .ok s1.stsei.supply := by
+    rw [hs1]; simp only [HubSt.sSupplyQ, hst]; rfl
+  obtain ⟨st, hact⟩ := actualState_live s1.hub s1.hubEnv _ _ hb1 hs1q
+  have sb := (actualState_spec s1.hub st s1.hubEnv hact).1
+  have hubeq : s1.hub = s.hub := by rw [hs1]
+  have timeq : s1.hubEnv.now = s.chain.time := by rw [hs1]; rfl
+  have hun : s1.hub.unbondS s1.hubEnv amt u =
+      .ok (st.afterUnbondS u amt, [HubSt.tokMsg hubA stseiA (.burn amt)]) := by
+    unfold HubSt.unbondS
+    simp only [hact]
+    rw [if_neg (by rw [sb.lastUnb, hubeq, timeq]; omega)]
+    simp only [hubeq, hst]
+    rw [if_neg (by rw [sb.lastUnb, sb.epoch, hubeq, timeq]; exact ht2)]
+    rfl
+  obtain ⟨s2, hs2⟩ : ∃ x : Sys, x = { s1 with hub := st.afterUnbondS u amt } := ⟨_, rfl⟩
+  have H2 : s1.handle (Msg.wasm stseiA hubA (.hub (.receive u amt .unbond)) []) =
+      .ok (s2, [HubSt.tokMsg hubA stseiA (.burn amt)]) := by
+    simp only [Sys.handle, Sys.moveFunds, bind, Except.bind, pure, Except.pure]
+    rw [if_pos trivial]
+    simp only [hubExec, hubeq, hp, Bool.false_eq_true, if_false, hbt, hst, bind, Except.bind, pure, Except.pure]
+    rw [if_neg (by decide), if_pos trivial]
+    rw [← hubeq, hun, hs2]
+  -- 3. the hub burns what it received
+  have hub2 : s2.stsei = t1 := by rw [hs2, hs1]
+  have wf1 : t1.WF := st1.1.wf
+  obtain ⟨t2, hb2⟩ : ∃ t, t1.burn hubA amt = .ok t := by
+    unfold Token.burn
+    have := Token.bal_le_supply t1 wf1 hubA
+    rw [if_neg (by omega), if_neg (by omega), if_neg (by omega)]
+    exact ⟨_, rfl⟩
+  have sup2 : t2.supply + amt = s.stsei.supply := by
+    unfold Token.burn at hb2
+    have := Token.bal_le_supply t1 wf1 hubA
+    rw [if_neg (by omega), if_neg (by omega), if_neg (by omega)] at hb2
+    injection hb2 with hb2; subst hb2
+    simp only []; omega
+  obtain ⟨s3, hs3⟩ : ∃ x : Sys, x = { s2 with stsei := t2 } := ⟨_, rfl⟩
+  have H3 : s2.handle (HubSt.tokMsg hubA stseiA (.burn amt)) =
+      .ok (s3, [Msg.wasm stseiA hubA (.hub .checkSlashing) []]) := by
+    simp only [HubSt.tokMsg, Sys.handle, Sys.moveFunds, bind, Except.bind, pure, Except.pure]
+    rw [if_neg (by decide), if_neg (by decide), if_pos trivial]
+    simp only [hub2, stseiExec, bind, Except.bind, pure, Except.pure, throw, throwThe, MonadExceptOf.throw, hub1]
+    rw [if_neg (by simp)]
+    simp only [hb2, hs3]
+  -- 4. and refreshes its rates
+  have hub3 : s3.hub = st.afterUnbondS u amt := by rw [hs3, hs2]
+  have cfg3 : s3.hub.bsei = some bseiA ∧ s3.hub.stsei = some stseiA ∧ s3.hub.isPaused = false := by
+    rw [hub3]
+    refine ⟨?_, ?_, ?_⟩
+    · show st.bsei = _; rw [sb.bsei, hubeq]; exact hbt
+    · show st.stsei = _; rw [sb.stsei, hubeq]; exact hst
+    · show st.isPaused = _
+      unfold HubSt.isPaused at hp ⊢; rw [sb.paused, hubeq]; exact hp
+  have hb3 : s3.hub.bSupplyQ s3.hubEnv = .ok s3.bsei.supply := by
+    simp only [HubSt.bSupplyQ, cfg3.1]; rfl
+  have hs3q : s3.hub.sSupplyQ s3.hubEnv = .ok s3.stsei.supply := by
+    simp only [HubSt.sSupplyQ, cfg3.2.1]; rfl
+  obtain ⟨st', hact'⟩ := actualState_live s3.hub s3.hubEnv _ _ hb3 hs3q
+  obtain ⟨s4, hs4⟩ : ∃ x : Sys, x = { s3 with hub := st' } := ⟨_, rfl⟩
+  have H4 : s3.handle (Msg.wasm stseiA hubA (.hub .checkSlashing) []) = .ok (s4, []) := by
+    simp only [Sys.handle, Sys.moveFunds, bind, Except.bind, pure, Except.pure]
+    rw [if_pos trivial]
+    simp only [hubExec, cfg3.2.2, Bool.false_eq_true, if_false, bind, Except.bind, pure, Except.pure, hact', hs4]
+  have sb' := (actualState_spec s3.hub st' s3.hubEnv hact').1
+  refine ⟨s4, ?_, ?_, ?_, ?_⟩
+  · unfold Sys.exec
+    simp only [Sys.run, H1, H2, H3, H4, List.nil_append, List.append_nil, List.singleton_append]
+  · rw [hs4]; show st'.waitS u s.hub.batchId = _
+    rw [sb'.waitS, hub3]
+    show (st.addWait u st.batchId 0 amt).waitS u s.hub.batchId = _
+    rw [sb.batchId, hubeq]
+    simp [HubSt.addWait, upd, sb.waitS, hubeq]
+  · rw [hs4]; show st'.reqS = _
+    rw [sb'.reqS, hub3]; show st.reqS + amt = _; rw [sb.reqS, hubeq]
+  · rw [hs4]; show s3.stsei.supply + amt = _; rw [hs3]; exact sup2
 
 end Krp
